@@ -248,6 +248,26 @@ def run(ctx, info):
                             ctx.violation("transform-slices", f"entry {v.name}: {got!r} is not the decoding {want!r} of its slice {sl!r}", m3)
                         kv.append(f"({i}%nat, {c13.dval_lit(v, k, s, got)})")
                     items.append(f"KTransform {tl} {coqlist([coord_lit(c) for c in cs_out])} (Some {coqlist(kv)})"); metas.append(m3)
+    # a task DERIVED from another one - Cls(**{**dict(task), "variables": new_vars}) carries the old task's derived fields along (space_dimension is a declared
+    # field): the description must follow the NEW variables, whatever stale value is handed to the constructor
+    n_derived = 0
+    for _ in range(40 if ctx.quick else 600):
+        ta, tb = gen_task(r), gen_task(r)
+        t1, _v1 = mk_task(ta)
+        _t2, v2 = mk_task(tb)
+        want = sum(v.size() for v in v2)
+        for how, kw in (("dict(task) + new variables", {**dict(t1), "variables": v2}), ("explicit stale space_dimension", {"variables": v2, "space_dimension": t1.space_dimension + 1})):
+            try:
+                t3 = type(t1)(**kw)
+            except Exception as e:
+                continue                                          # a constructor that refuses the stale field is fine too
+            n_derived += 1
+            lb, ub = t3.get_bounds()
+            if t3.space_dimension != want or len(lb) != want or len(t3.empty_solution()) != want:
+                ctx.violation("derived-task:dimension", f"a task built from {how}: space_dimension = {t3.space_dimension}, bounds for {len(lb)} coordinates, "
+                              f"random solutions of {len(t3.empty_solution())} coordinates, but its variables have {want} coordinates in all",
+                              {"task": tb, "derived_from": ta, "how": how})
+    ctx.coverage["derived_tasks"] = n_derived
     res = coq.run_cases("C14", PREAMBLE, items, "check", shard=300)
     distinct = len({json.dumps(m, default=str, sort_keys=True) for m in metas})
     ctx.add_cover(len(items), distinct,
